@@ -17,6 +17,7 @@ META = {
     "not_decided": "equality of the output with the documented expansion for all templates and values",
     "assumptions": [],
 }
+META["explanation"] += " " + "(X-copykind) the copy constructor of TagBit keeps the kind of its source in every arm (a Make<K>Tag helper may be used only in an arm whose labels are exactly K). PR-looptag additionally: every scanner that takes the loop context receives the caller's current one."
 
 T = "Qentem::TemplateCore::"
 
